@@ -518,6 +518,12 @@ def run(M, rec, tier, seed, k, n):
         direct_calls(M, rec, rng, 12000 if tier == "quick" else 150000)
         numpy_arguments_to_casadi(M, rec, rng, 960 if tier == "quick" else 9600, mon)
         retained_results(M, rec, rng, 480 if tier == "quick" else 4800, mon)
+        was_ = mon.enabled
+        mon.enabled = False  # (complex arguments have no CasADi counterpart: decided against finite differences of the same primitives)
+        try:
+            W.complex_step_jacobians(M, rec, rng, PROP, 40 if tier == "quick" else 400, what="the NumPy primitives (through a network step)")
+        finally:
+            mon.enabled = was_
         W.numpy_steps(M, rec, rng, 150 if tier == "quick" else 1500, draws=2)
     finally:
         mon.uninstall()
